@@ -309,7 +309,8 @@ static bool efCopyInitialisesAllMembers(){
 	std::memset(bufA, 0xAB, sizeof bufA); std::memset(bufB, 0xCD, sizeof bufB);
 	ErrorFunction<>* a = new (bufA) ErrorFunction<>(E); ErrorFunction<>* b = new (bufB) ErrorFunction<>(E);
 	bool ok = true;
-	for(std::size_t w = 0; w + 8 <= sizeof bufA; w += 8){
+	// only the members ErrorFunction itself declares (they follow the base-class subobject); the base class is default-constructed
+	for(std::size_t w = (sizeof(AbstractObjectiveFunction<RealVector, double>) + 7) / 8 * 8; w + 8 <= sizeof bufA; w += 8){
 		unsigned long long x, y; std::memcpy(&x, bufA + w, 8); std::memcpy(&y, bufB + w, 8);
 		if(x == 0xABABABABABABABABull && y == 0xCDCDCDCDCDCDCDCDull) ok = false;
 	}
